@@ -52,12 +52,9 @@ def setup():
         jax.config.update("jax_compilation_cache_dir", d)
         jax.config.update("jax_persistent_cache_min_compile_time_secs", 0.0)
         jax.config.update("jax_persistent_cache_min_entry_size_bytes", -1)
-        try:  # bounded (LRU eviction, ~15 kB per entry); needs the filelock package
-            import filelock  # noqa: F401
-
-            jax.config.update("jax_compilation_cache_max_size", int(os.environ.get("VERIF_XLA_CACHE_MAX_BYTES", 3 * 2**30)))
-        except ImportError:
-            pass
+        # No LRU bound: jax's size-bounded cache takes one global file lock per access and rescans the directory on
+        # every put; with 8 workers and >20k accumulated entries that made replica checks 5-8x slower. The engine
+        # gives every check run its own fresh directory and removes it afterwards, which bounds the size instead.
 
 # ---------------------------------------------------------------- material lowering
 
